@@ -159,6 +159,31 @@ def scan_frame(repo):
             for n in ('stop_query', 'start_query', 'start_query_timer'):
                 if n in names:
                     return '%s is called from %s (renaming call graph)' % (n, f)
+    # the engine has exactly two pieces of cross-query state: any other `static mut` (or interior-mutable static)
+    # would be state the harnesses do not reset
+    known_statics = {('time_out.rs', 'SUIRON_STOP_QUERY'), ('logic_var.rs', 'LOGIC_VAR_ID')}
+    for f in sorted(os.listdir(src)):
+        if not f.endswith('.rs'):
+            continue
+        text = open(os.path.join(src, f)).read()
+        tk = [t for t in lex(text) if t.kind not in ('ws', 'comment', 'doc')]
+        for k, t in enumerate(tk):
+            if t.kind == 'id' and t.text == 'static' and k + 2 < len(tk):
+                if tk[k + 1].kind == 'id' and tk[k + 1].text == 'mut':
+                    name = tk[k + 2].text
+                    if (f, name) not in known_statics:
+                        return 'a new mutable global %s in %s: cross-query state the C22 harnesses do not cover' % (name, f)
+                else:
+                    # immutable static: must not hide interior mutability
+                    j = k + 1
+                    decl = []
+                    while j < len(tk) and tk[j].text != '=' and tk[j].text != ';':
+                        decl.append(tk[j].text)
+                        j += 1
+                    if any(w in decl for w in ('Cell', 'RefCell', 'Mutex', 'RwLock', 'AtomicBool', 'AtomicUsize', 'AtomicU64', 'OnceCell', 'OnceLock', 'LazyLock')):
+                        return 'a global with interior mutability in %s (%s): cross-query state the C22 harnesses do not cover' % (f, ' '.join(decl[:6]))
+            if t.kind == 'id' and t.text in ('thread_local', 'lazy_static') and k + 1 < len(tk) and tk[k + 1].text == '!':
+                return 'a %s! global in %s: cross-query state the C22 harnesses do not cover' % (t.text, f)
     text = open(os.path.join(src, 'time_out.rs')).read()
     toks, items = find_items(text)
     for it in items:
